@@ -252,11 +252,30 @@ def oracle_problem(rng, seq, descs, out):
     return n_checks
 
 
+def big_codon_space(rng, out):
+    """many six-variant codon choices: the product leaves the 64-bit integer range long before the code's cap"""
+    import dnachisel as dc
+    k = rng.randint(18, 34)
+    seq = "".join(rng.choice(["CTG", "TCA", "AGA", "CTC", "TTA"]) for _ in range(k))
+    p = dc.DnaOptimizationProblem(seq, constraints=[dc.EnforceTranslation()], logger=None)
+    prod = 1
+    for c in p.mutation_space.multichoices:
+        prod *= len(c.variants)
+    sz = float(p.mutation_space.space_size)
+    if not (abs(sz - prod) <= 1e-6 * prod):
+        out.append(dict(kind="space-size", input=dict(sequence=seq, constraints=[dict(kind="cds", location=[0, 3 * k, 1], table="Standard",
+                                                                                       start_codon=None, translation=None)]),
+                        detail="space_size %r, product of variant counts %d" % (sz, prod)))
+    return 1
+
+
 def search(ctx, budget, hints):
     rng = vlib.Rng(ctx.seed + 1515)
     out = []
     n = 0
     tstats = {}
+    for _ in range(6 * budget):
+        n += vlib.limited(lambda: big_codon_space(rng, out), 15, 0, tstats)
     for _ in range(500 * budget):
         seq, descs = hard.rand_problem(rng)
         n += vlib.limited(lambda: oracle_problem(rng, seq, descs, out), 15, 0, tstats)
